@@ -508,7 +508,7 @@ def _iterdsl_programs(run, path, name, limit=None, seed=1, alt_sources=False):
         rest = [r for r in lines if not interacting(r)]
         random.Random(seed).shuffle(rest)
         lines = pri + rest[:max(0, limit - len(pri))]
-    ps = progs.ProgSet(run, name)
+    ps = progs.ProgSet(run, name, prelude=gi.USER_PRELUDE if alt_sources else "")
     for k_line, r in enumerate(lines):
         body, exp, model = gi.case(r)
         guard = gi.std_guard_applies(r)
@@ -527,7 +527,7 @@ def _iterdsl_programs(run, path, name, limit=None, seed=1, alt_sources=False):
         ps.add(body, "K:" + exp, rec, accept=accept)
         # the same chain from the other source kinds (Sources of IterDsl.tla): chains of depth <= 1, every fifth deeper one
         if alt_sources and "srcs" in r and (len(r["chain"]) <= 1 or (k_line % 5 == 0 and len(r["chain"]) == 2)):
-            for kind in ("array", "iter_copied", "range", "range_incl", "chars", "repeat_take"):
+            for kind in ("array", "iter_copied", "range", "range_incl", "chars", "repeat_take", "user_into", "user_iter"):
                 alt = gi.alt_source_case(r, kind)
                 if alt is None:
                     continue
